@@ -53,6 +53,15 @@ def main():
             rc, o = sh(demo_cmd, cwd=W)
             res["demo_clean_passes"] = (rc == 0)
             rc, o = sh("git apply %s" % patch, cwd=W)
+            if rc != 0:
+                # written against an earlier HEAD of /repo: three-way merge, then keep the rebased patch
+                rc, o = sh("git apply -3 %s" % patch, cwd=W)
+                if rc == 0:
+                    sh("git reset -q", cwd=W)
+                    rc2, rebased = sh("git diff -- . ':(exclude)%s'" % os.path.join(pkg.lstrip("./"), demo), cwd=W)
+                    patch = os.path.join("/tmp/seedchk", "%s-%s-rebased.diff" % (prop, k))
+                    open(patch, "w").write(rebased)
+                    res["rebased_onto_current_head"] = True
             res["patch_applies"] = (rc == 0)
             rc, o = sh("go build ./... && go vet ./quartz ./job ./logger ./matcher ./internal/... >/dev/null 2>&1; go build ./...", cwd=W)
             res["builds"] = (rc == 0)
